@@ -143,7 +143,7 @@ class Gen:
         if k == "escape":
             return r.choice(["\\*", "\\_", "\\\\", "\\[", "\\`"])
         if k == "role":
-            return r.choice([f"{{abbr}}`{w} (long)`", f"{{emphasis}}`{w}`", f"{{code}}`{w}`", f"{{sub}}`{w}`", f"{{math}}`x`"])
+            return r.choice([f"{{abbreviation}}`{w}`", f"{{emphasis}}`{w}`", f"{{code}}`{w}`", f"{{sub}}`{w}`", f"{{math}}`x`"])
         if k == "unknown_role":
             return f"{{nosuchrole}}`{w}`"
         if k == "subst":
